@@ -1,9 +1,12 @@
 import ScryerModel.Model.Random
 import Mathlib.Tactic.Ring
 import Mathlib.Tactic.Linarith
+import Mathlib.Tactic.NormNum
 import Mathlib.Algebra.Order.Ring.Nat
 /-! Helper lemmas for C52 (library(random)). -/
 namespace Scryer.Random
+
+/-! ### raw words -/
 
 theorem w32_lt (s : Stream) (p : Nat) : w32 s p < 2 ^ 32 := by
   unfold w32; exact (s p).toNat_lt
@@ -24,6 +27,10 @@ theorem gen_lt (w : Width) (s : Stream) (p : Nat) : (gen w s p).1 < 2 ^ w.bits :
 theorem gen_pos (w : Width) (s : Stream) (p : Nat) : p < (gen w s p).2 := by
   cases w <;> simp [gen, nextU64, nextU128]
 
+theorem bits_pos (w : Width) : 0 < w.bits := by cases w <;> simp [Width.bits]
+
+/-! ### the rejection loop -/
+
 /-- every value accepted by the rejection loop is below `range` (whatever the zone). -/
 theorem sampleLoop_lt (w : Width) (s : Stream) (range zn : Nat) (hr : 0 < range) :
     ∀ (fuel p : Nat) (r : Nat × Nat), sampleLoop w s range zn fuel p = some r → r.1 < range ∧ p < r.2 := by
@@ -41,5 +48,411 @@ theorem sampleLoop_lt (w : Width) (s : Stream) (range zn : Nat) (hr : 0 < range)
       exact Nat.mul_lt_mul_of_pos_right hv hr
     · have := ih _ r h
       exact ⟨this.1, Nat.lt_trans (gen_pos w s p) this.2⟩
+
+/-- more fuel does not change an answer. -/
+theorem sampleLoop_mono (w : Width) (s : Stream) (range zn : Nat) :
+    ∀ (fuel fuel' p : Nat) (r : Nat × Nat), fuel ≤ fuel' →
+      sampleLoop w s range zn fuel p = some r → sampleLoop w s range zn fuel' p = some r := by
+  intro fuel
+  induction fuel with
+  | zero => intro _ p r _ h; simp [sampleLoop] at h
+  | succ n ih =>
+    intro fuel' p r hle h
+    obtain ⟨m, rfl⟩ : ∃ m, fuel' = m + 1 := ⟨fuel' - 1, by omega⟩
+    simp only [sampleLoop] at h ⊢
+    split
+    · rename_i hc; simpa [hc] using h
+    · rename_i hc; simp only [hc, if_false] at h; exact ih m _ r (by omega) h
+
+theorem sampleOffset_lt (w : Width) (s : Stream) (range fuel p : Nat) (r : Nat × Nat)
+    (h : sampleOffset w s range fuel p = some r) :
+    (range = 0 → r.1 < 2 ^ w.bits) ∧ (0 < range → r.1 < range) ∧ p < r.2 := by
+  unfold sampleOffset at h
+  split at h
+  · rename_i h0; cases h
+    exact ⟨fun _ => gen_lt w s p, fun hp => absurd h0 (by omega), gen_pos w s p⟩
+  · rename_i h0
+    have := sampleLoop_lt w s range _ (by omega) fuel p r h
+    exact ⟨fun h1 => absurd h1 h0, fun _ => this.1, this.2⟩
+
+theorem sampleOffset_mono (w : Width) (s : Stream) (range fuel fuel' p : Nat) (r : Nat × Nat)
+    (hle : fuel ≤ fuel') (h : sampleOffset w s range fuel p = some r) :
+    sampleOffset w s range fuel' p = some r := by
+  unfold sampleOffset at h ⊢
+  split
+  · rename_i h0; simpa [h0] using h
+  · rename_i h0; simp only [h0, if_false] at h; exact sampleLoop_mono w s range _ fuel fuel' p r hle h
+
+/-! ### zone -/
+
+theorem log2_bounds {n : Nat} (h : n ≠ 0) : 2 ^ Nat.log2 n ≤ n ∧ n < 2 ^ (Nat.log2 n + 1) :=
+  ⟨Nat.log2_self_le h, Nat.lt_log2_self⟩
+
+theorem log2_lt_bits {n b : Nat} (h : n ≠ 0) (hb : n < 2 ^ b) : Nat.log2 n + 1 ≤ b := by
+  have h1 := (log2_bounds h).1
+  have : 2 ^ Nat.log2 n < 2 ^ b := Nat.lt_of_le_of_lt h1 hb
+  have := (Nat.pow_lt_pow_iff_right (a := 2) (by omega)).1 this
+  omega
+
+/-- the shifted range does not overflow: `range << leading_zeros` is a `bits`-bit value with its
+    top bit set. -/
+theorem shifted_bounds (w : Width) {range : Nat} (h0 : range ≠ 0) (hlt : range < 2 ^ w.bits) :
+    2 ^ (w.bits - 1) ≤ range * 2 ^ leadingZeros w.bits range ∧
+    range * 2 ^ leadingZeros w.bits range < 2 ^ w.bits := by
+  have hl := log2_lt_bits h0 hlt
+  obtain ⟨h1, h2⟩ := log2_bounds h0
+  unfold leadingZeros
+  constructor
+  · calc 2 ^ (w.bits - 1) = 2 ^ Nat.log2 range * 2 ^ (w.bits - (Nat.log2 range + 1)) := by
+          rw [← Nat.pow_add]; congr 1; omega
+      _ ≤ range * 2 ^ (w.bits - (Nat.log2 range + 1)) := Nat.mul_le_mul_right _ h1
+  · calc range * 2 ^ (w.bits - (Nat.log2 range + 1))
+          < 2 ^ (Nat.log2 range + 1) * 2 ^ (w.bits - (Nat.log2 range + 1)) :=
+            Nat.mul_lt_mul_of_pos_right h2 (Nat.two_pow_pos _)
+      _ = 2 ^ w.bits := by rw [← Nat.pow_add]; congr 1; omega
+
+/-- closed form of the zone: the wrapping arithmetic never wraps. -/
+theorem zone_eq (w : Width) {range : Nat} (h0 : range ≠ 0) (hlt : range < 2 ^ w.bits) :
+    zone w range + 1 = range * 2 ^ leadingZeros w.bits range := by
+  obtain ⟨h1, h2⟩ := shifted_bounds w h0 hlt
+  have hp : 0 < range * 2 ^ leadingZeros w.bits range :=
+    Nat.lt_of_lt_of_le (Nat.two_pow_pos _) h1
+  unfold zone
+  rw [Nat.mod_eq_of_lt h2]
+  generalize range * 2 ^ leadingZeros w.bits range = x at *
+  generalize 2 ^ w.bits = B at *
+  have : (x + (B - 1)) = (x - 1) + B := by omega
+  rw [this, Nat.add_mod_right, Nat.mod_eq_of_lt (by omega)]
+  omega
+
+/-! ### the i64 arm -/
+
+theorem isFix_iff (n : Int) : isFix n = true ↔ -36028797018963968 ≤ n ∧ n < 36028797018963968 := by
+  simp [isFix]
+
+theorem genRangeI64_spec (s : Stream) (l u : Int) (fuel p : Nat) (r : Int × Nat)
+    (hl : isFix l = true) (hu : isFix u = true) (hlu : l < u)
+    (h : genRangeI64 s l u fuel p = some r) :
+    l ≤ r.1 ∧ r.1 < u ∧ isFix r.1 = true ∧ p < r.2 := by
+  rw [isFix_iff] at hl hu
+  unfold genRangeI64 at h
+  have hrange : toU64 (wrapI64 (wrapI64 ((u - 1) - l) + 1)) = (u - l).toNat := by
+    unfold toU64 wrapI64; omega
+  rw [hrange] at h
+  split at h
+  · cases h
+  · rename_i x hx
+    cases h
+    have hs := sampleOffset_lt .w64 s (u - l).toNat fuel p x hx
+    have hlt : x.1 < (u - l).toNat := hs.2.1 (by omega)
+    have hv : wrapI64 (l + wrapI64 (x.1 : Int)) = l + (x.1 : Int) := by
+      unfold wrapI64; omega
+    simp only [hv]
+    refine ⟨by omega, by omega, ?_, hs.2.2⟩
+    rw [isFix_iff]; omega
+
+/-! ### dashu `uniform_large` -/
+
+theorem fillWords_lt (s : Stream) : ∀ (k p : Nat), (fillWords s k p).1 < 2 ^ (64 * k) ∧ p ≤ (fillWords s k p).2 := by
+  intro k
+  induction k with
+  | zero => intro p; simp [fillWords]
+  | succ k ih =>
+    intro p
+    have h1 := nextU64_lt s p
+    have h2 := ih (p + 2)
+    simp only [fillWords]
+    refine ⟨?_, by omega⟩
+    have : 2 ^ (64 * (k + 1)) = 2 ^ 64 * 2 ^ (64 * k) := by rw [← Nat.pow_add]; congr 1; omega
+    rw [this]
+    have h3 : 2 ^ 64 * ((fillWords s k (p + 2)).1 + 1) ≤ 2 ^ 64 * 2 ^ (64 * k) := Nat.mul_le_mul_left _ h2.1
+    omega
+
+/-- value of the words from index `i` upwards. -/
+def hiPart (r i : Nat) : Nat := r / 2 ^ (64 * i)
+
+theorem hiPart_succ (r i : Nat) : hiPart r i = hiPart r (i + 1) * 2 ^ 64 + word r i := by
+  unfold hiPart word
+  have : 2 ^ (64 * (i + 1)) = 2 ^ (64 * i) * 2 ^ 64 := by rw [← Nat.pow_add]; congr 1
+  rw [this, ← Nat.div_div_eq_div_mul]
+  have := Nat.div_add_mod (r / 2 ^ (64 * i)) (2 ^ 64)
+  omega
+
+theorem word_lt (r i : Nat) : word r i < 2 ^ 64 := Nat.mod_lt _ (by norm_num)
+
+theorem tryDescend_lt (s : Stream) (r : Nat) :
+    ∀ (i ri acc p v p' : Nat), acc = hiPart r (i + 1) * 2 ^ 64 + ri → ri ≤ word r i →
+      tryDescend s r i ri acc p = (some v, p') → v < r ∧ p ≤ p' := by
+  intro i
+  induction i with
+  | zero =>
+    intro ri acc p v p' hacc hri h
+    simp only [tryDescend] at h
+    split at h
+    · cases h
+    · rename_i hne
+      injection h with h1 h2
+      injection h1 with h1
+      subst h1; subst h2
+      have := hiPart_succ r 0
+      have h0 : hiPart r 0 = r := by simp [hiPart]
+      refine ⟨?_, Nat.le_refl _⟩
+      omega
+  | succ i ih =>
+    intro ri acc p v p' hacc hri h
+    simp only [tryDescend] at h
+    split at h
+    · rename_i heq
+      split at h
+      · cases h
+      · rename_i hx
+        have hs := hiPart_succ r (i + 1)
+        have := ih (nextU64 s p).1 (acc * 2 ^ 64 + (nextU64 s p).1) (p + 2) v p'
+          (by rw [hacc, heq, ← hs]) (by omega) h
+        exact ⟨this.1, by omega⟩
+    · rename_i hne
+      injection h with h1 h2
+      injection h1 with h1
+      have hf := fillWords_lt s (i + 1) p
+      have hs := hiPart_succ r (i + 1)
+      have hlt : acc + 1 ≤ hiPart r (i + 1) := by omega
+      have h3 : (acc + 1) * 2 ^ (64 * (i + 1)) ≤ hiPart r (i + 1) * 2 ^ (64 * (i + 1)) :=
+        Nat.mul_le_mul_right _ hlt
+      have h4 : hiPart r (i + 1) * 2 ^ (64 * (i + 1)) ≤ r := Nat.div_mul_le_self _ _
+      subst h1; subst h2
+      refine ⟨?_, hf.2⟩
+      have : (acc + 1) * 2 ^ (64 * (i + 1)) = acc * 2 ^ (64 * (i + 1)) + 2 ^ (64 * (i + 1)) := by ring
+      omega
+
+theorem lt_pow_numWords (r : Nat) : r < 2 ^ (64 * numWords r) := by
+  unfold numWords
+  have h1 : r < 2 ^ (Nat.log2 r + 1) := Nat.lt_log2_self
+  have h2 : 2 ^ (Nat.log2 r + 1) ≤ 2 ^ (64 * (Nat.log2 r / 64 + 1)) :=
+    Nat.pow_le_pow_right (by omega) (by omega)
+  omega
+
+theorem tryFill_lt (s : Stream) (r fuel p v p' : Nat)
+    (h : tryFill s r fuel p = some (some v, p')) : v < r ∧ p < p' := by
+  unfold tryFill at h
+  split at h
+  · cases h
+  · rename_i x hx
+    injection h with h
+    have hs := sampleOffset_lt .w64 s _ fuel p x hx
+    have hw := word_lt r (numWords r - 1)
+    have hxle : x.1 ≤ word r (numWords r - 1) := by
+      by_cases h0 : (word r (numWords r - 1) + 1) % 2 ^ 64 = 0
+      · have := hs.1 h0
+        simp only [Width.bits] at this
+        omega
+      · have := hs.2.1 (by omega)
+        have hm : (word r (numWords r - 1) + 1) % 2 ^ 64 ≤ word r (numWords r - 1) + 1 := Nat.mod_le _ _
+        omega
+    have hhi : hiPart r (numWords r - 1 + 1) = 0 := by
+      unfold hiPart
+      apply Nat.div_eq_of_lt
+      have : numWords r - 1 + 1 = numWords r := by unfold numWords; omega
+      rw [this]; exact lt_pow_numWords r
+    have := tryDescend_lt s r (numWords r - 1) x.1 x.1 x.2 v p' (by rw [hhi]; omega) hxle h
+    exact ⟨this.1, by omega⟩
+
+theorem tryFill_pos (s : Stream) (r fuel p p' : Nat) (o : Option Nat)
+    (h : tryFill s r fuel p = some (o, p')) : p < p' := by
+  unfold tryFill at h
+  split at h
+  · cases h
+  · rename_i x hx
+    injection h with h
+    have hs := (sampleOffset_lt .w64 s _ fuel p x hx).2.2
+    -- the descent never moves backwards
+    have key : ∀ (i ri acc q : Nat), q ≤ (tryDescend s r i ri acc q).2 := by
+      intro i
+      induction i with
+      | zero => intro ri acc q; simp only [tryDescend]; split <;> simp
+      | succ i ih =>
+        intro ri acc q
+        simp only [tryDescend]
+        split
+        · split
+          · simp
+          · have := ih (nextU64 s q).1 (acc * 2 ^ 64 + (nextU64 s q).1) (q + 2); omega
+        · exact (fillWords_lt s (i + 1) q).2
+    have := key (numWords r - 1) x.1 x.1 x.2
+    rw [h] at this
+    simp at this
+    omega
+
+theorem uniformLarge_lt (s : Stream) (r fuel : Nat) :
+    ∀ (k p : Nat) (x : Nat × Nat), uniformLarge s r fuel k p = some x → x.1 < r ∧ p < x.2 := by
+  intro k
+  induction k with
+  | zero => intro p x h; simp [uniformLarge] at h
+  | succ k ih =>
+    intro p x h
+    simp only [uniformLarge] at h
+    split at h
+    · cases h
+    · rename_i v p' hv
+      cases h
+      exact tryFill_lt s r fuel p v p' hv
+    · rename_i p' hv
+      have h1 := tryFill_pos s r fuel p p' none hv
+      have := ih p' x h
+      exact ⟨this.1, by omega⟩
+
+theorem uniformUBig_lt (s : Stream) (r fuel p : Nat) (x : Nat × Nat) (hr : 0 < r)
+    (h : uniformUBig s r fuel p = some x) : x.1 < r ∧ p < x.2 := by
+  unfold uniformUBig at h
+  split at h
+  · rename_i hlt
+    have hrange : ((r - 1) % 2 ^ 128 + 1) % 2 ^ 128 = r := by
+      have e1 : (r - 1) % 2 ^ 128 = r - 1 := Nat.mod_eq_of_lt (by omega)
+      have e2 : r - 1 + 1 = r := by omega
+      rw [e1, e2, Nat.mod_eq_of_lt hlt]
+    rw [hrange] at h
+    have := sampleOffset_lt .w128 s r fuel p x h
+    exact ⟨this.2.1 hr, this.2.2⟩
+  · exact uniformLarge_lt s r fuel fuel p x h
+
+/-! ### `K / 2^50` as a double -/
+
+theorem ratioBits_spec {k : Nat} (hk : 0 < k) (hlt : k < 2 ^ 53) :
+    ratioBits k / 2 ^ 52 = Nat.log2 k + 973 ∧
+    (2 ^ 52 + ratioBits k % 2 ^ 52) * 2 ^ 50 = k * 2 ^ (1075 - (Nat.log2 k + 973)) := by
+  have h0 : k ≠ 0 := by omega
+  obtain ⟨h1, h2⟩ := log2_bounds h0
+  have hl : Nat.log2 k + 1 ≤ 53 := log2_lt_bits h0 hlt
+  have hlo : 2 ^ 52 ≤ k * 2 ^ (52 - Nat.log2 k) := by
+    calc 2 ^ 52 = 2 ^ Nat.log2 k * 2 ^ (52 - Nat.log2 k) := by rw [← Nat.pow_add]; congr 1; omega
+      _ ≤ k * 2 ^ (52 - Nat.log2 k) := Nat.mul_le_mul_right _ h1
+  have hhi : k * 2 ^ (52 - Nat.log2 k) < 2 ^ 53 := by
+    calc k * 2 ^ (52 - Nat.log2 k) < 2 ^ (Nat.log2 k + 1) * 2 ^ (52 - Nat.log2 k) :=
+          Nat.mul_lt_mul_of_pos_right h2 (Nat.two_pow_pos _)
+      _ = 2 ^ 53 := by rw [← Nat.pow_add]; congr 1; omega
+  have hm : k * 2 ^ (52 - Nat.log2 k) - 2 ^ 52 < 2 ^ 52 := by omega
+  unfold ratioBits
+  rw [if_neg h0]
+  have e1 : ((Nat.log2 k + 973) * 2 ^ 52 + (k * 2 ^ (52 - Nat.log2 k) - 2 ^ 52)) / 2 ^ 52 = Nat.log2 k + 973 := by
+    generalize k * 2 ^ (52 - Nat.log2 k) - 2 ^ 52 = m at hm
+    generalize Nat.log2 k + 973 = a
+    omega
+  have e2 : ((Nat.log2 k + 973) * 2 ^ 52 + (k * 2 ^ (52 - Nat.log2 k) - 2 ^ 52)) % 2 ^ 52
+      = k * 2 ^ (52 - Nat.log2 k) - 2 ^ 52 := by
+    generalize k * 2 ^ (52 - Nat.log2 k) - 2 ^ 52 = m at hm
+    generalize Nat.log2 k + 973 = a
+    omega
+  refine ⟨e1, ?_⟩
+  rw [e2]
+  have : 2 ^ 52 + (k * 2 ^ (52 - Nat.log2 k) - 2 ^ 52) = k * 2 ^ (52 - Nat.log2 k) := by omega
+  have e3 : 52 - Nat.log2 k + 50 = 1075 - (Nat.log2 k + 973) := by omega
+  rw [this, Nat.mul_assoc, ← Nat.pow_add, e3]
+
+/-! ### fuel only bounds the search: more fuel never changes an answer -/
+
+theorem tryFill_mono (s : Stream) (r fuel fuel' p : Nat) (y : Option Nat × Nat) (hle : fuel ≤ fuel')
+    (h : tryFill s r fuel p = some y) : tryFill s r fuel' p = some y := by
+  unfold tryFill at h ⊢
+  split at h
+  · cases h
+  · rename_i x hx
+    rw [sampleOffset_mono .w64 s _ fuel fuel' p x hle hx]
+    exact h
+
+theorem uniformLarge_mono (s : Stream) (r fuel fuel' : Nat) (hle : fuel ≤ fuel') :
+    ∀ (k k' p : Nat) (x : Nat × Nat), k ≤ k' →
+      uniformLarge s r fuel k p = some x → uniformLarge s r fuel' k' p = some x := by
+  intro k
+  induction k with
+  | zero => intro _ p x _ h; simp [uniformLarge] at h
+  | succ k ih =>
+    intro k' p x hk h
+    obtain ⟨m, rfl⟩ : ∃ m, k' = m + 1 := ⟨k' - 1, by omega⟩
+    simp only [uniformLarge] at h ⊢
+    split at h
+    · cases h
+    · rename_i v p' hv
+      rw [tryFill_mono s r fuel fuel' p _ hle hv]; exact h
+    · rename_i p' hv
+      rw [tryFill_mono s r fuel fuel' p _ hle hv]
+      exact ih m p' x (by omega) h
+
+theorem uniformUBig_mono (s : Stream) (r fuel fuel' p : Nat) (x : Nat × Nat) (hle : fuel ≤ fuel')
+    (h : uniformUBig s r fuel p = some x) : uniformUBig s r fuel' p = some x := by
+  unfold uniformUBig at h ⊢
+  split
+  · rename_i hlt; rw [if_pos hlt] at h; exact sampleOffset_mono .w128 s _ fuel fuel' p x hle h
+  · rename_i hlt; rw [if_neg hlt] at h; exact uniformLarge_mono s r fuel fuel' hle fuel fuel' p x hle h
+
+theorem genRangeI64_mono (s : Stream) (l u : Int) (fuel fuel' p : Nat) (x : Int × Nat) (hle : fuel ≤ fuel')
+    (h : genRangeI64 s l u fuel p = some x) : genRangeI64 s l u fuel' p = some x := by
+  unfold genRangeI64 at h ⊢
+  split at h
+  · cases h
+  · rename_i y hy
+    rw [sampleOffset_mono .w64 s _ fuel fuel' p y hle hy]; exact h
+
+theorem sysRandomInteger_mono (s : Stream) (l u : Int) (lb ub : Bool) (fuel fuel' p : Nat) (x : Res × Nat)
+    (hle : fuel ≤ fuel') (h : sysRandomInteger s l u lb ub fuel p = some x) :
+    sysRandomInteger s l u lb ub fuel' p = some x := by
+  unfold sysRandomInteger at h ⊢
+  split
+  · rename_i hc; rw [if_pos hc] at h
+    split
+    · rename_i hge; rw [if_pos hge] at h; exact h
+    · rename_i hge; rw [if_neg hge] at h
+      split at h
+      · cases h
+      · rename_i y hy; rw [genRangeI64_mono s l u fuel fuel' p y hle hy]; exact h
+  · rename_i hc; rw [if_neg hc] at h
+    split
+    · rename_i hge; rw [if_pos hge] at h; exact h
+    · rename_i hge; rw [if_neg hge] at h
+      split at h
+      · cases h
+      · rename_i y hy; rw [uniformUBig_mono s _ fuel fuel' p y hle hy]; exact h
+
+/-! ### counting accepted raw words (uniformity) -/
+
+theorem ceil_le_iff (n d v : Nat) (hd : 0 < d) : (n + d - 1) / d ≤ v ↔ n ≤ v * d := by
+  rw [Nat.div_le_iff_le_mul_add_pred hd, Nat.mul_comm d v]
+  omega
+
+/-- acceptance with high word `k`  ⇔  the product lies in the window `[k·B, k·B + range·m)`. -/
+theorem accept_iff_window (B range m k x : Nat) (hZ : range * m ≤ B) :
+    (x % B < range * m ∧ x / B = k) ↔ (k * B ≤ x ∧ x < k * B + range * m) := by
+  have hdm := Nat.div_add_mod x B
+  constructor
+  · rintro ⟨h1, h2⟩
+    rw [h2, Nat.mul_comm] at hdm
+    omega
+  · rintro ⟨h1, h2⟩
+    have hd : x / B = k := Nat.div_eq_of_lt_le h1 (by rw [Nat.add_mul]; omega)
+    rw [hd, Nat.mul_comm] at hdm
+    exact ⟨by omega, hd⟩
+
+/-- the window `[k·B, k·B + range·m)` contains the multiples `v·range` for exactly the `m`
+    consecutive `v` starting at `⌈k·B / range⌉`. -/
+theorem window_iff_Ico (B range m k v : Nat) (hr : 0 < range) :
+    (k * B ≤ v * range ∧ v * range < k * B + range * m) ↔
+      ((k * B + range - 1) / range ≤ v ∧ v < (k * B + range - 1) / range + m) := by
+  rw [ceil_le_iff _ _ _ hr]
+  have key : (k * B + range - 1) / range + m ≤ v ↔ k * B + range * m ≤ v * range := by
+    constructor
+    · intro h
+      have hmv : m ≤ v := Nat.le_trans (Nat.le_add_left m _) h
+      obtain ⟨v', rfl⟩ : ∃ v', v = v' + m := ⟨v - m, by omega⟩
+      have := (ceil_le_iff (k * B) range v' hr).1 (Nat.le_of_add_le_add_right h)
+      rw [Nat.add_mul, Nat.mul_comm m range]; omega
+    · intro h
+      have hm : m ≤ v := by
+        have : range * m ≤ range * v := by rw [Nat.mul_comm range v]; omega
+        exact Nat.le_of_mul_le_mul_left this hr
+      obtain ⟨v', rfl⟩ : ∃ v', v = v' + m := ⟨v - m, by omega⟩
+      rw [Nat.add_mul, Nat.mul_comm m range] at h
+      have := (ceil_le_iff (k * B) range v' hr).2 (by omega)
+      omega
+  constructor
+  · rintro ⟨h1, h2⟩; exact ⟨h1, by rw [← Nat.not_le, key]; omega⟩
+  · rintro ⟨h1, h2⟩; exact ⟨h1, by rw [← Nat.not_le, key] at h2; omega⟩
 
 end Scryer.Random
